@@ -20,10 +20,10 @@ TIERS = {"quick": dict(cases=1000, shards=8, case_timeout=180, shard_timeout=900
          "thorough": dict(cases=16000, shards=16, case_timeout=180, shard_timeout=3000)}
 FLOORS = {"quick": {"refs_compared": 20000, "pulse_phases_checked": 2500, "explicit_shifts": 1500, "ramsey_checked": 40},
           "thorough": {"refs_compared": 300000}}
-WEIGHTS = {"phase_shift": 6, "phase_shift_index": 2, "add": 10, "add_eom_pulse": 3, "target": 3, "declare_channel": 3,
+WEIGHTS = {"phase_shift": 6, "phase_shift_index": 2, "add": 10, "add_eom_pulse": 7, "target": 3, "declare_channel": 3,
            "sample": 0, "str": 0, "to_abstract_repr": 0, "build_copy": 0, "queries": 0, "measure": 0.02,
            "get_duration": 0, "estimate_added_delay": 0, "is_in_eom_mode": 0, "current_phase_ref": 0.5,
-           "enable_eom_mode": 1.5, "disable_eom_mode": 1.2, "modify_eom_setpoint": 1.0}
+           "enable_eom_mode": 3.0, "disable_eom_mode": 1.2, "modify_eom_setpoint": 1.0}
 ANGLES = [0.0, 0.3, 1.0, math.pi / 2, 2.0, math.pi, 4.0, -1.0, -7.0, 7.5, 9.0, 2 * math.pi, 5.5, -math.pi / 3]
 
 
